@@ -272,6 +272,14 @@ def build(name, argseed, dadi, env):
             ns_ = [int(rng.integers(2, 5)) for _ in range(nd)]
             F["layout_args"] = [0]
             return (lambda p, n, x: Spectrum.from_phi(p, n, [x] * len(n))), [phi, ns_, xx], {}, F
+        if meth == "from_phi-grids":
+            # the same number of grid points and the same sample sizes on three different grids: whatever is memoised per
+            # (n, grid) must be keyed on the grid itself
+            k = int(argseed) % 3
+            L = 12
+            xx = [Numerics.default_grid(L), Numerics.exponential_grid(L, crwd=2.0), np.linspace(0, 1, L)][k]
+            F["layout_args"] = [0]
+            return (lambda p, x: Spectrum.from_phi(p, [3, 3], [x, x])), [_phi(rng_of(name, 0), L, 2), np.asarray(xx, float)], {}, F
         if meth == "from_phi_direct":
             nd = int(rng.integers(1, 4))
             L = {1: 20, 2: 10, 3: 7}[nd]
@@ -429,6 +437,19 @@ def build(name, argseed, dadi, env):
             return LP.calling_error_matrix, [cd, n, float(rng.choice([0, 0.3]))], {}, F
         if fn == "no_call":
             return LP.probability_of_no_call_1D_GATK_multisample, [cd, n, 0], {}, F
+        if fn == "cov_dist_model":
+            # three populations with different depths: the coverage dictionary is consumed positionally further down, so its
+            # order (and the model built from it) must not depend on anything but pop_ids
+            pops = ["YRI", "CEU", "CHB"]
+            dd = {}
+            for i in range(40):
+                dd["c_%d" % i] = {"coverage": {pp: rng.poisson([3.0, 9.0, 20.0][j], size=[3, 2, 2][j]) for j, pp in enumerate(pops)}}
+
+            def call(d):
+                cov = LP.compute_cov_dist(d, pops)
+                f = LP.make_low_pass_func_GATK_multisample(dadi.Demographics3D.split_nomig, cov, pops, nseq=[6, 4, 4], nsub=[4, 2, 2], sim_threshold=1.0)
+                return [list(cov.keys()), [np.asarray(v) for v in cov.values()], f([1.0, 2.0, 0.5, 0.8, 0.1, 0.2], [4, 2, 2], 10)]
+            return call, [dd], {}, F
         if fn == "lowpass_model":
             cds = {"pop0": cd}
             return (lambda pr: LP.make_low_pass_func_GATK_multisample(dadi.Demographics1D.two_epoch, cds, ["pop0"], nseq=[8], nsub=[4], sim_threshold=1.0)(pr, [4], 16)), [[2.0, float(rng.uniform(0.05, 0.2))]], {}, F
@@ -470,7 +491,7 @@ def build(name, argseed, dadi, env):
 CATALOG = (
     ["Spectrum." + m for m in ("project", "fold", "unfold", "marginalize", "filter_pops", "reorder_pops", "combine_pops", "scramble_pop_ids",
                                "S", "pi", "Watterson_theta", "Tajima_D", "theta_L", "Fst", "log", "add", "mul", "pickle", "from_phi",
-                               "from_phi_direct", "from_phi_inbreeding", "from_data_dict", "from_data_dict-1pop", "project-6to4", "from_demes")]
+                               "from_phi-grids", "from_phi_direct", "from_phi_inbreeding", "from_data_dict", "from_data_dict-1pop", "project-6to4", "from_demes")]
     + ["Numerics." + m for m in ("default_grid", "trapz", "_cached_projection", "multinomln", "BetaBinomln", "cached_part", "BetaBinomConvolution",
                                  "apply_anc_state_misid", "reverse_array", "intersect_masks", "extrap-two_epoch", "extrap-split_mig")]
     + ["PhiManip." + m for m in ("phi_1D", "phi_1D_to_2D", "phi_2D_to_3D_admix", "phi_3D_to_4D", "remove_pop", "reorder_pops", "pulse_2D", "pulse_3D")]
@@ -479,7 +500,7 @@ CATALOG = (
     + ["Inference." + m for m in ("ll", "ll_multinom", "ll_per_bin", "optimal_sfs_scaling", "optimally_scaled_sfs", "linear_Poisson_residual",
                                   "Anscombe_Poisson_residual", "project_up", "project_down")]
     + ["Godambe." + m for m in ("get_hess", "sum_chi2_ppf", "FIM_uncert", "GIM_uncert", "LRT_adjust", "score_stat")]
-    + ["LowPass." + m for m in ("partitions", "projection_matrix", "calling_error_matrix", "no_call", "lowpass_model")]
+    + ["LowPass." + m for m in ("partitions", "projection_matrix", "calling_error_matrix", "no_call", "lowpass_model", "cov_dist_model")]
     + ["Misc." + m for m in ("count_data_dict", "fragment_data_dict", "perturb_params")]
     + ["DFE.integrate", "DFE.integrate_point_pos", "Demes.output"]
 )
